@@ -133,6 +133,8 @@ def cases_for(spec, variant=None, limit=400, seed=0, extra_vals=()):
             doms.append(KW)
         elif ty == "str":
             doms.append([v for v in VALS if v[0] == "s"])
+        elif ty == "pydict":
+            doms.append([["idd", []], ["idd", [[I(1), I(10)], [S("a"), I(11)]]], ["idd", [[I(0), I(5)], [T(I(1), I(2)), I(6)], [I(4), I(7)]]]])
         elif ty == "fset":
             doms.append([["fs", []], ["fs", [I(1), I(2)]], ["fs", [I(1), I(2), I(3)]], ["fs", [I(3), I(4), I(7)]], ["fs", [I(9)]], ["fs", [S("a"), S("b")]]])
         elif ty == "set":
